@@ -37,6 +37,9 @@ WORKLOADS = [
     ("bagof", "Ls", "findall(X-L, bagof(Y, member(X-Y,[1-a,2-b,1-c]), L), Ls)"),
     ("length_enum", "L", "(length(L, 3))"),
     ("copy_unify", "C-D", "(T = f(X,g(Y,X),\"str\",[1,2|Z]), copy_term(T, C), C = f(a,D,_,_))"),
+    # exceptions in flight: an interrupt that arrives between a throw and the
+    # handler taking over must not be lost
+    ("throw_catch", "X-E-Y", "(catch(t31a, b31(X), true), catch(t31b, error(E, _), true), catch(t31c, c31b(Y), true))"),
 ]
 
 # every workload is a consulted predicate wl31_<name>(Result), so that the
@@ -57,6 +60,10 @@ nrev31([], []).
 nrev31([H|T], R) :- nrev31(T, RT), app31(RT, [H], R).
 app31([], L, L).
 app31([H|T], L, [H|R]) :- app31(T, L, R).
+t31a :- throw(b31(1)).
+t31b :- atom_length(_, _).
+t31c :- catch(t31d, nomatch, true).
+t31d :- throw(c31b(2)).
 num31(N, N, [N]) :- !.
 num31(I, N, [I|T]) :- I < N, I1 is I + 1, num31(I1, N, T).
 """ + "".join("wl31_%s(%s) :- %s.\n" % (n, t, g) for (n, t, g) in WORKLOADS)
@@ -93,7 +100,7 @@ def points(i, N, w0, w1, tier):
 
 
 ENG = flt.Flt("C31", "interrupt", HELPERS, [(n, g) for (n, _, g) in WORKLOADS], FOLLOWUPS,
-              is_interrupt_ball, points, fault_name="interrupt")
+              is_interrupt_ball, points, fault_name="interrupt", fine_grained=("throw_catch",))
 
 
 def bound_text(tier):
